@@ -424,6 +424,17 @@ var Kinds = []kind{
 		},
 		MapTok: func(v interface{}) (string, bool) { return "", false },
 		Zero:   func(v interface{}) bool { s := v.(SerStruct); return s.N == 0 && s.S == "" && s.L == nil }},
+	{Name: "unixtime_ptr", Type: reflect.TypeOf((*int64)(nil)), SQLType: "datetime", Tag: "serializer:unixtime;type:datetime", NGen: 4,
+		Gen: func(k int) interface{} { return []*int64{nil, ptrI(0), ptrI(1600000000), ptrI(86400)}[k%4] },
+		Tok: func(v interface{}) string {
+			p := v.(*int64)
+			if p == nil {
+				return "null"
+			}
+			return "i:" + strconv.FormatInt(*p, 10)
+		},
+		MapTok: func(v interface{}) (string, bool) { return "", false },
+		Zero:   func(v interface{}) bool { return v.(*int64) == nil }},
 	{Name: "unixtime", Type: reflect.TypeOf(int64(0)), SQLType: "datetime", Tag: "serializer:unixtime;type:datetime", NGen: 3,
 		Gen:    func(k int) interface{} { return []int64{0, 1600000000, 86400}[k%3] },
 		Tok:    func(v interface{}) string { return "i:" + strconv.FormatInt(v.(int64), 10) },
